@@ -1466,9 +1466,12 @@ class EBPF(EBPFBase):
         self.loaded = True
         self.file_descriptor = fd
 
-        for v in self.__class__.__dict__.values():
-            if isinstance(v, Map):
-                v.load(self)
+        unique = set()  # as in __init__: maps may come from base classes
+        for cls in self.__class__.__mro__:
+            for k, v in cls.__dict__.items():
+                if k not in unique and isinstance(v, Map):
+                    unique.add(k)
+                    v.load(self)
 
         return log
 
